@@ -740,6 +740,21 @@ class MiniInterp:
             return any(self.equal(x, a) for x in coll)
         if isinstance(coll, _Iter):
             return any(self.equal(x, a) for x in coll.rest())
+        if isinstance(coll, (set, frozenset)):
+            try:
+                return self.key(a) in coll
+            except TypeError:
+                raise PyRaise("TypeError")
+        if isinstance(coll, (Sym, SymDict)) and getattr(coll, "cls", None) is not None:
+            cm = coll.cls.find_method("__contains__")
+            if cm is not None:
+                return self.truth(self.call(self.prj.func(cm.qual, raw=True), [a], {}, coll))
+            if coll.cls.find_method("__iter__") is not None or (coll.cls.find_method("__getitem__") is not None and coll.cls.find_method("__len__") is not None):
+                return any(self.equal(x, a) for x in self.iterate(coll))
+            if not coll.cls.external_bases() and not getattr(coll, "open", False) and not getattr(coll, "tuple_order", None):
+                raise PyRaise("TypeError")
+        if isinstance(coll, Sym) and getattr(coll, "tuple_order", None):
+            return any(self.equal(coll.fields[k], a) for k in coll.tuple_order)
         raise Unknown(f"membership in {type(coll).__name__}")
 
     def mkset(self, xs) -> "ISet":
@@ -971,6 +986,10 @@ class MiniInterp:
                 if isinstance(v, (Sym, Lin)):
                     return Lin.of(v).scale(-1).simplify()
                 return -v
+            if isinstance(n.op, ast.UAdd) and isinstance(v, (int, float, Sym, Lin)):
+                return v
+            if isinstance(n.op, ast.Invert) and isinstance(v, int):
+                return ~v
             raise Unknown("unary operator")
         if isinstance(n, ast.BinOp):
             return self.binop(n.op, self.ev(n.left, env, fi), self.ev(n.right, env, fi), n)
@@ -1102,7 +1121,10 @@ class MiniInterp:
                     out.append(self.ev(n.elt, env2, fi))
                 return
             g = n.generators[i]
-            for x in self.iterate(self.ev(g.iter, env2, fi)):
+            src = self.ev(g.iter, env2, fi)
+            # a lazily produced source (os.walk, a generator function) is pulled one element at a time: what the inner clauses do
+            # with an element (pruning the walked directory list) happens before the next one is produced
+            for x in (src.lazy() if isinstance(src, LazyIter) else self.iterate(src)):
                 self.tick()
                 self.assign(g.target, x, env2, fi)
                 if all(self.truth(self.ev(c, env2, fi)) for c in g.ifs):
